@@ -8,7 +8,13 @@ Oracle: hashlib.sha1 over bytes assembled here (server id encoded by a
 hand-written UTF-8 encoder, not by str.encode) and formatted by
 vf.refproto.javahash.java_hex (two's-complement negation on bytes; never
 int.from_bytes(signed=True)).  The published vectors are additionally compared
-against their literal strings.
+against their literal strings.  The key is whatever byte string the server
+sent: besides arbitrary bytes the key alphabet holds real RSA keys in the
+canonical SubjectPublicKeyInfo DER and in encodings that a DER loader accepts
+or half-accepts but would not emit itself (bare PKCS#1, AlgorithmIdentifier
+without parameters, BER long-form length, trailing bytes, PEM text), built here
+octet by octet from the key's numbers; the hash is always over the bytes as
+given.
 
 Part 2 (the hash that is actually SENT).  Real logins through the connection
 harness (vf.harness / vf.refserver) with a stub AuthenticationToken whose
@@ -18,8 +24,10 @@ handed to join() in that login must be the reference hash of (server id of
 that login, the secret the server recovered in that login, the encoded public
 key).  HISTORIES of 1..3 consecutive logins on ONE Connection object are
 enumerated (same / different server ids, logins that reach play and logins
-the server ends right after the encryption response), every login judged.
+the server ends right after the encryption response, the server key sent in
+its canonical or in another loadable encoding), every login judged.
 """
+import base64
 import hashlib
 import itertools
 import random
@@ -32,8 +40,22 @@ RULE = ('Every server id of length 0..2 (quick) / 0..3 (thorough) over a '
         'fixed 40-code-point alphabet (ASCII letters, digits, "-", space, '
         'NUL, DEL, and 18 non-ASCII characters sitting on every UTF-8 width '
         'boundary: widths 2, 3 and 4) x 4 secrets (00*16, ff*16, 00..0f, one '
-        'seed-derived) x 3 keys (empty, 1 byte, a 162-byte DER-shaped RSA '
-        'SubjectPublicKeyInfo); plus the three published vectors (Notch, '
+        'seed-derived) x 11 keys: empty, 1 byte, a 162-byte DER-shaped blob '
+        '(not a valid key), and encodings of two real RSA keys '
+        '(vf.harness.rsa_key, 1024 and 2048 bit) written here octet by '
+        'octet from (n, e) without pyCraft code: the canonical '
+        'SubjectPublicKeyInfo DER of both (checked equal to what the '
+        'platform emits), and for the 1024-bit key a bare PKCS#1 '
+        'RSAPublicKey, a SubjectPublicKeyInfo whose AlgorithmIdentifier '
+        'omits the NULL parameters, one whose AlgorithmIdentifier length is '
+        'in BER long form (81 0d), the canonical DER followed by two '
+        'trailing bytes, the PEM text; for the 2048-bit key also the bare '
+        'PKCS#1 form.  The hash is always taken over the key bytes AS '
+        'GIVEN; each key is classed by what the platform DER loader '
+        '(cryptography, not pyCraft) makes of it - loadable and canonical / '
+        'loadable but not the canonical encoding of that key / not '
+        'loadable - and all three classes must be non-empty.  Plus the '
+        'three published vectors (Notch, '
         'jeb_, simon) through both minecraft_sha1_hash_digest and '
         'generate_verification_hash, plus explicit triples whose six part '
         'orders give six different digests.  Every case is one real digest '
@@ -53,13 +75,24 @@ RULE = ('Every server id of length 0..2 (quick) / 0..3 (thorough) over a '
         'login Disconnect after the encryption response.  Server ids: A = '
         '"srv", B = U+00E9 U+20AC U+1F600, "" (empty), "-" (offline mode), '
         'S = three seed-chosen symbols of the alphabet above.  Quick (64 '
-        'histories): k=1: {A,B,"","-",S} x {play,drop}; k=2: every ordered '
+        'histories with the key sent as canonical SubjectPublicKeyInfo): '
+        'k=1: {A,B,"","-",S} x {play,drop}; k=2: every ordered '
         'pair of {A,B,"","-"} and (S,S) x first ending {play,drop}, second '
         'play; k=3: AAA, AAB, ABA, ABB x first two endings {play,drop}^2, '
         'plus ("-",A,A), (A,"-",A), ("","",""), (A,"",A) all play.  '
         'Thorough: additionally every sequence of length 1..3 over '
         '{A,B,"","-"} x {play,drop,kick} (1884 histories including those of '
-        'the quick set) and the quick set at protocols 47 and 340.  Every '
+        'the quick set) and the quick set at protocols 47 and 340.  '
+        'Key encodings in SENT: the bytes the server sends as its public '
+        'key are chosen PER LOGIN from {spki (canonical), pkcs1, '
+        'spki-noparams} of the one 1024-bit key (the encodings the client '
+        'can load; the reference is over the bytes the reference server '
+        'reports having sent in that login).  Quick adds 16 histories: k=1 '
+        '{A,B} x {play,drop} x {pkcs1, spki-noparams}; k=2 (A play, A play) '
+        'x every ordered pair of the three encodings (the all-canonical '
+        'pair is already in the 64).  Thorough: those also at protocols 47 '
+        'and 340, and every sequence of length 1..2 over {A,B} x '
+        '{play,drop} x the three encodings.  Every '
         'login in which the server recovered a secret is '
         'one judged case: for an id other than "-" at least one join must '
         'be recorded during that login and every recorded argument must '
@@ -77,7 +110,15 @@ ASSUMPTIONS = ['hashlib.sha1 (shared with pyCraft as the platform SHA-1) is '
                'represented by the join() method of the auth token object '
                'given to Connection(auth_token=...), so the HTTP request '
                'built by the real AuthenticationToken.join is not covered '
-               'here (C10 drives it)']
+               'here: C10 drives it in logins, and C19 judges the body '
+               'posted by every join call, including two overlapping joins '
+               'on one shared token under all schedules with <= 2 '
+               'preemptions (each must post its own server hash)',
+               'a key "as encoded by the server" is the byte string in the '
+               'encryption request; the server hashes those bytes (vanilla: '
+               'PublicKey.getEncoded() is what it sends), so no '
+               're-serialisation on the client side can be right for an '
+               'encoding that is loadable but not canonical']
 
 # -- alphabet -----------------------------------------------------------------
 
@@ -115,7 +156,114 @@ DER162 = (bytes.fromhex('30819f300d06092a864886f70d010101050003818d00'
           bytes([0x80 | 0xC1] + [(0xC1 + 0x3B * i) & 0xFF
                                  for i in range(1, 128)]) +
           bytes.fromhex('0203010001'))
-KEYS = [('empty', b''), ('one', b'\x01'), ('der162', DER162)]
+KEYS_FIXED = [('empty', b''), ('one', b'\x01'), ('der162', DER162)]
+
+# Encodings of real RSA keys (vf.harness.rsa_key: 1024 and 2048 bit, cached
+# under out/), written here octet by octet from (n, e).  name -> how built.
+OID_RSA = bytes.fromhex('06092a864886f70d010101')       # rsaEncryption
+KEY_NAMES = ['empty', 'one', 'der162', 'spki', 'pkcs1', 'spki-noparams',
+             'spki-longlen', 'spki-trailing', 'pem', 'spki-2048',
+             'pkcs1-2048']
+# what the platform's DER loader is expected to make of them (checked)
+K_CANON = 'key: loadable, canonical SubjectPublicKeyInfo DER'
+K_NONCANON = 'key: loadable, NOT the canonical encoding of that key'
+K_UNLOADABLE = 'key: not loadable as a DER public key'
+
+
+def der_len(n):
+    """Minimal (DER) length octets."""
+    if n < 0x80:
+        return bytes([n])
+    out = []
+    while n:
+        out.insert(0, n & 0xFF)
+        n >>= 8
+    return bytes([0x80 | len(out)] + out)
+
+
+def tlv(tag, content, length=None):
+    return bytes([tag]) + (der_len(len(content)) if length is None
+                           else length) + content
+
+
+def der_uint(v):
+    """INTEGER of a non-negative number: minimal, sign octet when needed."""
+    out = []
+    while v:
+        out.insert(0, v & 0xFF)
+        v >>= 8
+    if not out or out[0] & 0x80:
+        out.insert(0, 0)
+    return tlv(0x02, bytes(out))
+
+
+def encodings_of(n, e):
+    """name -> bytes for one RSA public key (n, e)."""
+    pkcs1 = tlv(0x30, der_uint(n) + der_uint(e))        # RSAPublicKey
+    bits = tlv(0x03, b'\x00' + pkcs1)                   # BIT STRING, 0 unused
+    alg = tlv(0x30, OID_RSA + b'\x05\x00')              # parameters NULL
+    spki = tlv(0x30, alg + bits)
+    body = OID_RSA + b'\x05\x00'
+    b64 = base64.b64encode(spki).decode('ascii')
+    pem = ('-----BEGIN PUBLIC KEY-----\n' +
+           ''.join(b64[i:i + 64] + '\n' for i in range(0, len(b64), 64)) +
+           '-----END PUBLIC KEY-----\n').encode('ascii')
+    return {
+        'spki': spki,
+        'pkcs1': pkcs1,
+        # AlgorithmIdentifier with the parameters field omitted
+        'spki-noparams': tlv(0x30, tlv(0x30, OID_RSA) + bits),
+        # BER: the length 13 of AlgorithmIdentifier written as 81 0d
+        'spki-longlen': tlv(0x30, tlv(0x30, body, bytes([0x81, len(body)]))
+                            + bits),
+        'spki-trailing': spki + b'\x00\x00',
+        'pem': pem,
+    }
+
+
+_KEYS = []
+
+
+def key_alphabet():
+    """[(name, bytes, class)], the same list in every process (the RSA keys
+    are read from the cache under out/)."""
+    if _KEYS:
+        return _KEYS
+    from vf import harness
+    from cryptography.hazmat.primitives import serialization as ser
+    found = dict(KEYS_FIXED)
+    for bits, suffix, names in ((1024, '', ('spki', 'pkcs1', 'spki-noparams',
+                                            'spki-longlen', 'spki-trailing',
+                                            'pem')),
+                                (2048, '-2048', ('spki', 'pkcs1'))):
+        key, der = harness.rsa_key(bits)
+        pn = key.public_key().public_numbers()
+        enc = encodings_of(pn.n, pn.e)
+        if enc['spki'] != der:
+            raise ToolError('hand-built SubjectPublicKeyInfo of the %d-bit '
+                            'key differs from the DER the platform emits'
+                            % bits)
+        for nm in names:
+            found[nm + suffix] = enc[nm]
+    out = []
+    for nm in KEY_NAMES:
+        b = found[nm]
+        try:
+            k = ser.load_der_public_key(b)
+            canon = k.public_bytes(ser.Encoding.DER,
+                                   ser.PublicFormat.SubjectPublicKeyInfo)
+            cls = K_CANON if canon == b else K_NONCANON
+        except Exception:
+            cls = K_UNLOADABLE
+        out.append((nm, b, cls))
+    if len(set(b for _, b, _ in out)) != len(out):
+        raise ToolError('key alphabet holds equal members')
+    _KEYS.extend(out)
+    return _KEYS
+
+
+def key_bytes(name):
+    return dict((n, b) for n, b, _ in key_alphabet())[name]
 
 
 def secrets_for(seed):
@@ -154,7 +302,8 @@ REQUIRED = [C_NEG, C_POS, C_ZN, C_ZB, C_ZN + ' [negative]',
             C_ZN + ' [positive]', C_ZB + ' [negative]',
             C_ZB + ' [positive]', 'non-ascii server id',
             'server id utf8 width 2', 'server id utf8 width 3',
-            'server id utf8 width 4'] + list(C_SW)
+            'server id utf8 width 4', K_CANON, K_NONCANON,
+            K_UNLOADABLE] + list(C_SW)
 
 
 def load():
@@ -215,6 +364,21 @@ def explain(got, cps, sec, key):
         if got == ref.java_hex(hashlib.sha1(cat).digest()):
             return 'equals the hash of the parts in the order %s' % '+'.join(
                 names[i] for i in perm)
+    try:
+        from cryptography.hazmat.primitives import serialization as ser
+        k = ser.load_der_public_key(key)
+        for fname, fmt in (
+                ('SubjectPublicKeyInfo',
+                 ser.PublicFormat.SubjectPublicKeyInfo),
+                ('PKCS1', ser.PublicFormat.PKCS1)):
+            alt = k.public_bytes(ser.Encoding.DER, fmt)
+            if alt != key and got == ref.java_hex(
+                    hashlib.sha1(idb + sec + alt).digest()):
+                return ('equals the hash over the key RE-ENCODED as %s DER '
+                        '(%d bytes), not over the %d key bytes as given'
+                        % (fname, len(alt), len(key)))
+    except Exception:
+        pass
     sid = ''.join(map(chr, cps))
     for enc in ('latin-1', 'ascii', 'utf-16', 'utf-16-le', 'utf-16-be',
                 'utf-32', 'utf-8-sig', 'cp1252'):
@@ -296,6 +460,7 @@ def w_ids(ctx, task):
     prefix, tail = task
     gen = load()[0]
     secrets = secrets_for(ctx.seed)
+    keys = key_alphabet()
     cl = collections.Counter()
     n = bad = 0
     for rest in itertools.product(range(N), repeat=tail):
@@ -303,7 +468,7 @@ def w_ids(ctx, task):
         cps = [ALPHA[i] for i in idx]
         sid = ''.join(ALPHA_C[i] for i in idx)
         idb = b''.join(ALPHA_B[i] for i in idx)
-        k = len(secrets) * len(KEYS)
+        k = len(secrets) * len(keys)
         if len(idb) > len(idx):
             cl['non-ascii server id'] += k
             for w in set(len(ALPHA_B[i]) for i in idx):
@@ -311,8 +476,9 @@ def w_ids(ctx, task):
                     cl['server id utf8 width %d' % w] += k
         cl['server id length %d' % len(idx)] += k
         for sname, sec in secrets:
-            for kname, key in KEYS:
+            for kname, key, kcls in keys:
                 n += 1
+                cl[kcls] += 1
                 if not judge(ctx, gen, cps, sid, idb, sname, sec, kname, key,
                              cl, full=bad < MAXV_PER_TASK):
                     bad += 1
@@ -382,8 +548,11 @@ S_THIRD = 'sent: third login on the same Connection object'
 S_EMPTY = 'sent: server id "" (hash of secret and key only)'
 S_OFFLINE = 'sent: server id "-" (offline mode), no join made'
 S_NONASCII = 'sent: non-ASCII server id on the wire'
+S_REKEY = 'sent: login whose key encoding differs from that of the ' \
+    'login before it on the same Connection object'
 SENT_REQUIRED = [S_SAME, S_DIFF, S_AFTER_DROP, S_AFTER_PLAY, S_THIRD,
-                 S_EMPTY, S_OFFLINE, S_NONASCII,
+                 S_EMPTY, S_OFFLINE, S_NONASCII, S_REKEY,
+                 'sent: ' + K_CANON[5:], 'sent: ' + K_NONCANON[5:],
                  'sent: ' + C_NEG, 'sent: ' + C_POS]
 
 
@@ -393,9 +562,48 @@ def sent_seed_id(seed):
     return tuple(ALPHA[b % N] for b in d)
 
 
+SENT_ENCS = ('spki', 'pkcs1', 'spki-noparams')   # loadable by the client
+
+
 def sent_histories(ctx):
-    """-> list of (history, protocol version); a history is a tuple of
-    (server id code points, ending)."""
+    """-> list of (history, protocol version, key encodings); a history is a
+    tuple of (server id code points, ending); key encodings: one name of the
+    key alphabet per login (the bytes the server sends as its public key in
+    that login; always the same 1024-bit key)."""
+    out = []
+    seen = set()
+    for h, v in _sent_histories_canonical(ctx):
+        out.append((h, v, ('spki',) * len(h)))
+        seen.add(out[-1])
+    A, B = SENT_A, SENT_B
+    quick = []
+    for enc in SENT_ENCS[1:]:
+        for sid in (A, B):
+            for end in ('play', 'drop'):
+                quick.append((((sid, end),), (enc,)))
+    for e1 in SENT_ENCS:
+        for e2 in SENT_ENCS:
+            quick.append((((A, 'play'), (A, 'play')), (e1, e2)))
+    versions = (757, 47, 340) if ctx.thorough else (757,)
+    for v in versions:
+        for h, encs in quick:
+            if (h, v, encs) not in seen:
+                seen.add((h, v, encs))
+                out.append((h, v, encs))
+    if ctx.thorough:
+        steps = [(i, e, k) for i in (A, B) for e in ('play', 'drop')
+                 for k in SENT_ENCS]
+        for n in (1, 2):
+            for seq in itertools.product(steps, repeat=n):
+                t = (tuple((i, e) for i, e, _ in seq), 757,
+                     tuple(k for _, _, k in seq))
+                if t not in seen:
+                    seen.add(t)
+                    out.append(t)
+    return out
+
+
+def _sent_histories_canonical(ctx):
     A, B, E, O = SENT_A, SENT_B, SENT_EMPTY, SENT_OFF
     S = sent_seed_id(ctx.seed)
     quick = []
@@ -427,12 +635,18 @@ def sent_histories(ctx):
     return out
 
 
-def hist_text(hist):
-    return ' > '.join('%s/%s' % (id_text(cps), end) for cps, end in hist)
+def hist_text(hist, encs=None):
+    """(a login whose key is sent in the canonical encoding reads as before
+    the key dimension existed)"""
+    encs = encs or ('spki',) * len(hist)
+    return ' > '.join('%s/%s%s' % (id_text(cps), end,
+                                   '' if k == 'spki' else '/key=' + k)
+                      for (cps, end), k in zip(hist, encs))
 
 
-def sent_useed(seed, hist, version):
-    d = hashlib.blake2b(('C17 sent %d %d %r' % (seed, version, hist))
+def sent_useed(seed, hist, version, encs=None):
+    tag = '' if not encs or set(encs) == {'spki'} else ' %r' % (tuple(encs),)
+    d = hashlib.blake2b(('C17 sent %d %d %r%s' % (seed, version, hist, tag))
                         .encode('ascii'), digest_size=4).digest()
     return int.from_bytes(d, 'big') & 0x7FFFFFFF
 
@@ -453,16 +667,18 @@ class RecordingToken(object):
         return True
 
 
-def body_sent(W, hist, version):
+def body_sent(W, hist, version, encs):
     from vf import harness
     key, der = harness.rsa_key()
+    sent_as = [key_bytes(k) for k in encs]
 
     def per_conn(i):
         cps, end = hist[min(i, len(hist) - 1)]
         sid = ''.join(map(chr, cps))
         tail = {'play': [('success',)], 'drop': [('close',)],
                 'kick': [('disconnect', '{"text":"not white-listed"}')]}[end]
-        return {'login': [('encrypt', sid, SENT_TOKEN)] + tail}
+        return {'login': [('encrypt', sid, SENT_TOKEN)] + tail,
+                'rsa': (key, sent_as[min(i, len(hist) - 1)])}
     W.serve(rsa=(key, der), per_conn=per_conn)
     tok = RecordingToken()
     errs = []
@@ -481,11 +697,13 @@ def body_sent(W, hist, version):
             raised = '%s: %s' % (type(e).__name__, e)
         W.settle()
         rec = {'servers': len(W.servers), 'connect_raised': raised,
-               'joins': list(tok.calls[before:]), 'errs': list(errs)}
+               'joins': list(tok.calls[before:]), 'errs': list(errs),
+               'der': sent_as[j]}
         if len(W.servers) == j + 1:
             srv = W.servers[j]
             rec.update(secret=srv.secret, state=srv.state,
                        errors=list(srv.errors), sid_sent=srv.server_id,
+                       der=bytes(srv.rsa[1]),
                        reactor=type(conn.reactor).__name__)
         logins.append(rec)
         if end == 'play' or conn.connected or \
@@ -498,20 +716,22 @@ def body_sent(W, hist, version):
     return {'logins': logins, 'der': der, 'all_joins': list(tok.calls)}
 
 
-def run_sent(hist, version, useed):
+def run_sent(hist, version, useed, encs):
     from vf import harness
-    return harness.run(lambda W: body_sent(W, hist, version),
+    return harness.run(lambda W: body_sent(W, hist, version, encs),
                        horizon=400000, seed=useed)
 
 
-def judge_sent(ctx, hist, version, useed, cl):
+def judge_sent(ctx, hist, version, useed, cl, encs=None):
     """One history on the real code; every login judged.  -> number of
     logins counted as cases."""
-    x = run_sent(hist, version, useed)
+    encs = tuple(encs or ('spki',) * len(hist))
+    kcls = dict((n, c) for n, _, c in key_alphabet())
+    x = run_sent(hist, version, useed, encs)
     case = {'kind': 'sent', 'history': [[list(cps), end]
                                         for cps, end in hist],
-            'version': version, 'useed': useed}
-    htxt = hist_text(hist)
+            'version': version, 'useed': useed, 'encs': list(encs)}
+    htxt = hist_text(hist, encs)
     if x.failure is not None:
         cl['out:sent: history did not run to the end'] += 1
         ctx.violation('sent %s client %s' % (htxt, x.failure[0]),
@@ -519,12 +739,12 @@ def judge_sent(ctx, hist, version, useed, cl):
                       % (htxt, version, x.failure[0], x.failure[1]), case)
         return len(hist)
     r = x.result
-    der = r['der']
     wants = []
     for j, ((cps, end), rec) in enumerate(zip(hist, r['logins'])):
         sid = ''.join(map(chr, cps))
-        who = 'login %d of %d (server id %r, ending %s)' % (
-            j + 1, len(hist), sid, end)
+        der = rec['der']
+        who = 'login %d of %d (server id %r, ending %s, %d-byte public key ' \
+            'sent as %s)' % (j + 1, len(hist), sid, end, len(der), encs[j])
         if rec['servers'] != j + 1 or 'secret' not in rec:
             cl['out:sent: login did not take place'] += 1
             ctx.violation('sent %s no login %d' % (htxt, j + 1),
@@ -560,6 +780,9 @@ def judge_sent(ctx, hist, version, useed, cl):
         if j == 2:
             cl[S_THIRD] += 1
         cl['sent: login ending %s' % end] += 1
+        cl['sent: ' + kcls[encs[j]][5:]] += 1
+        if j >= 1 and encs[j] != encs[j - 1]:
+            cl[S_REKEY] += 1
         cl['sent: protocol %d' % version] += 1
         if cps == SENT_OFF and not joins:
             cl[S_OFFLINE] += 1
@@ -607,24 +830,24 @@ def judge_sent(ctx, hist, version, useed, cl):
 
 
 def w_keys(ctx, task):
-    """The cached server key must exist before the pool needs it."""
-    from vf import harness
-    harness.rsa_key()
+    """The cached server keys must exist before the pool needs them."""
+    key_alphabet()
 
 
 def w_sent(ctx, task):
     import collections
-    hist, version = task
+    hist, version, encs = task
     cl = collections.Counter()
-    n = judge_sent(ctx, hist, version, sent_useed(ctx.seed, hist, version),
-                   cl)
+    n = judge_sent(ctx, hist, version,
+                   sent_useed(ctx.seed, hist, version, encs), cl, encs)
     cl['sent: history of %d login(s)' % len(hist)] += 1
     flush(ctx, cl)
     ctx.count(n)
     ctx.note_distinct(n)
     ctx.extra['sent_histories'] = 1
-    if (hist, version) == (((SENT_A, 'play'), (SENT_A, 'play')), 757):
-        ctx.sample({'part': 'sent', 'history': hist_text(hist),
+    if (hist, version) == (((SENT_A, 'play'), (SENT_A, 'play')), 757) and \
+            encs in (('spki', 'spki'), ('spki', 'pkcs1')):
+        ctx.sample({'part': 'sent', 'history': hist_text(hist, encs),
                     'protocol': version})
 
 
@@ -636,6 +859,7 @@ def run(ctx):
             check_vector(ctx, name, route)
     for cps, sec, key in ORDER_CASES:
         check_order_case(ctx, cps, sec, key)
+    ctx.pmap(w_keys, [0])      # (one task: runs here, before any fork)
     maxlen = 3 if ctx.thorough else 2
     tasks = [((), 0), ((), 1)]
     tasks += [((a,), 1) for a in range(N)]
@@ -644,14 +868,13 @@ def run(ctx):
     random.Random(ctx.seed).shuffle(tasks)
     ctx.pmap(w_ids, tasks, chunksize=16 if maxlen >= 3 else 1)
     # part 2: harness executions, only ever inside pool workers
-    ctx.pmap(w_keys, [0])
     sent = sent_histories(ctx)
     random.Random(ctx.seed + 1).shuffle(sent)
     ctx.pmap(w_sent, sent, chunksize=4 if ctx.thorough else 1)
     secrets = secrets_for(ctx.seed)
     n_ids = sum(N ** L for L in range(maxlen + 1))
-    n_sent = sum(len(h) for h, _ in sent)
-    expected = n_ids * len(secrets) * len(KEYS) + 2 * len(VECTORS) \
+    n_sent = sum(len(h) for h, _, _ in sent)
+    expected = n_ids * len(secrets) * len(KEY_NAMES) + 2 * len(VECTORS) \
         + len(ORDER_CASES) + n_sent
     if ctx.evaluations != expected:
         raise ToolError('enumerated %d cases, expected %d'
@@ -666,7 +889,8 @@ def run(ctx):
     ctx.extra['server_ids'] = n_ids
     ctx.extra['alphabet'] = [id_text([c]) for c in ALPHA]
     ctx.extra['secrets'] = [n for n, _ in secrets]
-    ctx.extra['keys'] = [n for n, _ in KEYS]
+    ctx.extra['keys'] = ['%s (%d bytes; %s)' % (n, len(b), c[5:])
+                         for n, b, c in key_alphabet()]
     ctx.sample({'id': 'Notch', 'secret': '', 'key': '',
                 'java_hex': dict(VECTORS)['Notch']})
     ctx.sample({'id': 'jeb_', 'secret': '', 'key': '',
@@ -698,13 +922,15 @@ def replay(ctx, case):
                      for cps, end in case['history'])
         cl = collections.Counter()
         ctx.count(judge_sent(ctx, hist, int(case['version']),
-                             int(case['useed']), cl))
+                             int(case['useed']), cl,
+                             [str(k) for k in case['encs']]
+                             if case.get('encs') else None))
         flush(ctx, cl)
         return
     cps = [int(c) for c in case['id_cp']]
     sec, key = bytes(case['secret']), bytes(case['key'])
     names = dict((b, n) for n, b in secrets_for(ctx.seed))
-    knames = dict((b, n) for n, b in KEYS)
+    knames = dict((b, n) for n, b, _ in key_alphabet())
     cl = collections.Counter()
     ctx.count()
     judge(ctx, load()[0], cps, ''.join(map(chr, cps)),
